@@ -66,6 +66,9 @@ func (d *driver) scenarioHeldAccessor(blocks []*block) {
 		}},
 	} {
 		id := "scenario/held-accessor/" + v.name
+		if d.dead {
+			return
+		}
 		d.nw++
 		w, err := newWorld(d.root, d.nw, blocks, 0, 0)
 		if err != nil {
@@ -141,6 +144,9 @@ func (d *driver) scenarioStaleServingCache(blocks []*block) {
 	}
 	for _, b := range []*block{blocks[3], blocks[0]} {
 		id := fmt.Sprintf("scenario/stale-serving-cache/%s", map[bool]string{true: "empty-block", false: "data-block"}[b.Ref.Empty])
+		if d.dead {
+			return
+		}
 		d.nw++
 		w, err := newWorld(d.root, d.nw, blocks, 1, 1)
 		if err != nil {
